@@ -287,7 +287,7 @@ func (h *hist) recheck(all []*issued, step int, what string) {
 
 func run(c *core.Ctx) {
 	pairs := authority.Pairs()
-	nh := c.N(12, 60)
+	nh := c.N(24, 72)
 	t0 := time.Date(2024, 3, 1, 0, 0, 0, 0, time.UTC) // before the provenance date so that timestamps fall on both sides
 	issuedTotal := 0
 	for hi := 0; hi < nh; hi++ {
